@@ -122,6 +122,9 @@ pub fn field_zoo(f: &Fld) -> Vec<Tagged> {
     for v in decimal_structured(p) {
         push(v, "decimal-structure");
     }
+    for v in two_adic_relations(p) {
+        push(v, "2-adic relation with p");
+    }
     for v in divstep_worst_inputs(p, 300, 24) {
         // also the Montgomery-domain partner: the backends hand the canonical value to the divstep loop,
         // a variant working on the internal form would see v*R
@@ -884,5 +887,52 @@ pub fn divstep_worst_inputs(p: &B, width: usize, keep: usize) -> Vec<B> {
     scored.dedup_by(|x, y| x.1 == y.1);
     let out: Vec<B> = scored.into_iter().take(keep).map(|x| x.1).collect();
     CACHE.get().unwrap().lock().unwrap().insert(key, out.clone());
+    out
+}
+
+
+/// Values in a 2-adic relation with the modulus: k*a = p or a = k*p modulo 2^64, 2^65, 2^128 for small odd k
+/// (the high part is a fixed filler). Binary GCD / Jacobi-symbol / divstep style routines subtract odd multiples
+/// and strip powers of two: on such operands an intermediate has (more than) a whole zero limb at the bottom.
+pub fn two_adic_relations(p: &B) -> Vec<B> {
+    let mut out = Vec::new();
+    let bits = p.bits() as usize;
+    let fill = |seed: u64| -> B {
+        // deterministic filler below p's top bits
+        let mut v = b(0);
+        let mut x = seed.wrapping_mul(0x9E37_79B9_7F4A_7C15) | 1;
+        for i in 0..((bits + 63) / 64) {
+            x ^= x << 13; x ^= x >> 7; x ^= x << 17;
+            v += b(x) << (64 * i);
+        }
+        v % (p >> 2usize)
+    };
+    for (mi, m) in [64usize, 65, 128, 192].into_iter().enumerate() {
+        if m + 8 >= bits {
+            continue;
+        }
+        let modulus = b(1) << m;
+        for k in [1u64, 3, 5, 7, 9, 11, 13, 15] {
+            // k^-1 mod 2^m by Newton iteration on integers
+            let kb = b(k);
+            let mut inv = b(1);
+            for _ in 0..9 {
+                let t = (&kb * &inv) % &modulus;
+                let two_minus = (&modulus + b(2) - t) % &modulus;
+                inv = (&inv * two_minus) % &modulus;
+            }
+            let low_a = (p * &inv) % &modulus;          // k * a = p (mod 2^m)
+            let low_b = (p * &kb) % &modulus;           // a = k * p (mod 2^m)
+            for (li, low) in [low_a, low_b].into_iter().enumerate() {
+                let hi = fill((mi * 100 + k as usize * 2 + li) as u64);
+                let v = ((hi >> m) << m) + low;
+                if &v < p && v > b(0) {
+                    out.push(v.clone());
+                }
+                let neg = p - (&v % p);
+                out.push(neg % p);
+            }
+        }
+    }
     out
 }
